@@ -408,6 +408,19 @@ pub fn gen_large(rng: &mut Rng, n: usize) -> GenAf {
                 }
             }
         }
+        // id-aliasing pairs (see below), oriented along the order so that the framework stays acyclic
+        let mut pos = vec![0usize; n];
+        for (i, a) in perm.iter().enumerate() { pos[*a] = i; }
+        for _ in 0..rng.below(7) {
+            let d = [32usize, 64, 128, 256][rng.below(4)];
+            if d >= n { continue; }
+            let a = rng.below(n - d);
+            let later: Vec<usize> = (0..n).filter(|t| pos[*t] > pos[a].max(pos[a + d])).collect();
+            if later.is_empty() { continue; }
+            let t = *rng.pick(&later);
+            atts.push((a, t));
+            atts.push((a + d, t));
+        }
         atts.sort();
         atts.dedup();
         rng.shuffle(&mut atts);
@@ -422,6 +435,25 @@ pub fn gen_large(rng: &mut Rng, n: usize) -> GenAf {
                 let base = (a / block) * block;
                 let b = base + rng.below(block.min(n - base));
                 atts.push((a, b));
+            }
+        }
+    }
+    // id-ALIASING pairs: two attackers of one argument whose ids differ by exactly 32, 64, 128 or 256 (bit masks and
+    // packed tables indexed by `id % width` or `id & mask` confuse exactly such pairs), half of the time
+    if rng.chance(1, 2) {
+        for _ in 0..rng.range(1, 6) {
+            let d = [32usize, 64, 128, 256][rng.below(4)];
+            if d >= n { continue; }
+            let a = rng.below(n - d);
+            let t = rng.below(n);
+            atts.push((a, t));
+            atts.push((a + d, t));
+            // half of the pairs are made DECISIVE: one of the two becomes unattacked (a member of the grounded extension)
+            // and attacks the other, so that t is defeated through exactly that attacker and losing it shows
+            if rng.chance(1, 2) && t != a && t != a + d {
+                let (u, o) = if rng.chance(1, 2) { (a, a + d) } else { (a + d, a) };
+                atts.retain(|p| p.1 != u);
+                atts.push((u, o));
             }
         }
     }
